@@ -256,6 +256,9 @@ func (msg *ClientReqMsg) UnmarshalJSON(b []byte) error {
 
 	ret.ReqFilters = make([]*ReqFilter, len(elems)-2)
 	for i := 0; i < len(elems)-2; i++ {
+		if bytes.Equal(elems[i+2], nullJSON) {
+			return errors.New("filter must be a json object but got null")
+		}
 		f := new(ReqFilter)
 		if err := f.UnmarshalJSON(elems[i+2]); err != nil {
 			return fmt.Errorf("failed to unmarshal filter: %w", err)
@@ -443,6 +446,9 @@ func (msg *ClientCountMsg) UnmarshalJSON(b []byte) error {
 
 	ret.ReqFilters = make([]*ReqFilter, len(elems)-2)
 	for i := 0; i < len(elems)-2; i++ {
+		if bytes.Equal(elems[i+2], nullJSON) {
+			return errors.New("filter must be a json object but got null")
+		}
 		f := new(ReqFilter)
 		if err := f.UnmarshalJSON(elems[i+2]); err != nil {
 			return fmt.Errorf("failed to unmarshal filter: %w", err)
